@@ -254,3 +254,8 @@ Theorem C15_unnormalize_off_is_identity : forall p chans ms ss y,
   length ms = length chans -> length ss = length chans -> length y = length chans -> norm_unvec p false chans ms ss y = y.
 Proof. exact norm_unvec_off. Qed.
 Print Assumptions C15_unnormalize_off_is_identity.
+
+(* the prior the statements are relative to is the documented one: RunningMeanStd(epsilon=1e-4) = (mean 0, variance 1, weight 1e-4) *)
+Theorem C15_prior_is_documented : eps_default = 1 # 10000 /\ rms_init eps_default = mk_rms 0 1 (1 # 10000).
+Proof. exact prior_is_documented. Qed.
+Print Assumptions C15_prior_is_documented.
